@@ -133,6 +133,15 @@ def run(ck):
                       "finalized height, raised finality)")
     ck.extra["histories"] = len(recs)
     ck.extra["finality_raises"] = sum(1 for h in recs for s in h["steps"] if any(e["t"] == "finalize" for e in s["events"]))
+    jumps = []
+    for h in recs:
+        pf = 0
+        for s in h["steps"]:
+            jumps.append(s["fin"] - pf)
+            pf = s["fin"]
+    ck.extra["max_finality_jump"] = max(jumps or [0])
+    ck.extra["delete_requests_after_restart"] = sum(
+        1 for h in recs for a, b in zip(h["steps"], h["steps"][1:]) if a["op"] == "restart" and b["op"] in ("delete", "delete_req"))
     ck.extra["refused_deletes_at_finality"] = sum(1 for h in recs for s in h["steps"] if s["class"] == "finalized")
     ck.extra["traces_validated_against_impl"] = sum(len(h["steps"]) for h in recs)
     ck.assume += ["maxHeightPrecommited of the post-state is an input (computed by the liskbft module on a scratch staged store)",
